@@ -200,7 +200,9 @@ func execC10(c *simrt.Ctx) {
 						return
 					}
 					if ci == 0 {
+						c10Gen++
 						h.apply(op)
+						c10Gen++
 					} else {
 						for i := int64(0); i < op.I[0]; i++ {
 							simrt.Yield("reader-pause")
@@ -221,6 +223,9 @@ func execC10(c *simrt.Ctx) {
 
 var c10ConcN int
 
+// c10Gen is advanced by the writing client before and after each of its operations.
+var c10Gen int
+
 func (h *l2) allBits() [][2]uint64 {
 	var out [][2]uint64
 	_ = h.f.forEachBit(func(r, c uint64) error { out = append(out, [2]uint64{r, c}); return nil })
@@ -233,11 +238,15 @@ func (h *l2) allBits() [][2]uint64 {
 // must be the checksums of those contents - judged against a twin fragment built from them.
 func (h *l2) concBlocks() {
 	f := h.f
+	g0 := c10Gen
 	c1 := f.Blocks()
 	d1 := h.allBits()
 	c2 := f.Blocks()
 	d2 := h.allBits()
-	if !eqBlocks(c1, c2) || fmt.Sprint(d1) != fmt.Sprint(d2) {
+	// ... and no operation of the writer began or ended meanwhile: several operations can
+	// change contents and put them back between the four reads (clear, set, clear); a single
+	// operation in flight cannot
+	if c10Gen != g0 || !eqBlocks(c1, c2) || fmt.Sprint(d1) != fmt.Sprint(d2) {
 		h.c.Probe("conc-blocks-raced")
 		return
 	}
@@ -261,7 +270,7 @@ func (h *l2) concBlocks() {
 		}
 	}
 	if want := tw.Blocks(); !eqBlocks(c1, want) {
-		h.c.Fail("stale-checksum", "a reader during %s saw Blocks()=%s twice around contents whose checksums are %s (%d bits)", h.lastWrite, blocksString(c1), blocksString(want), len(d1))
+		h.c.Fail("stale-checksum", "a reader during %s saw Blocks()=%s twice around contents whose checksums are %s (%d bits: %v)", h.lastWrite, blocksString(c1), blocksString(want), len(d1), d1)
 		return
 	}
 	h.c.Probe("conc-blocks-checked")
